@@ -218,6 +218,8 @@ class Normaliser(object):
                 continue        # a literal statement the output kept, spelled through an introduced alias
             if o.get('remove_asserts') and isinstance(st, ast.Assert):
                 continue
+            if (o.get('remove_asserts') or o.get('remove_debug')) and is_literal_stmt(st) and type(st.value.value) is int and st.value.value == 0 and len(body) > 1:
+                continue        # a placeholder that outlived its suite: `if __debug__: ... else: assert x` leaves `0` once both removals have run
             if o.get('remove_debug') and isinstance(st, ast.If) and debug_test(st.test, self.env):
                 sub = self.items(st.orelse)
                 if self.lone_zero(sub):
@@ -1020,6 +1022,7 @@ def compare(psrc, qsrc, opts, ptree=None, qtree=None):
                               'p': 'raise %s()' % name, 'q': 'option=%s builtin-exception=%s resolves=%r star-import=%s' % (
                                   bool(opts.get('remove_builtin_exception_brackets')), name in BUILTIN_EXCEPTIONS, getattr(po, 'binding', None), pm_.star_import)})
     # ---- class-body dynamic fallback: a name both bound and loaded in a class body may read the module global at run time
+    pair_of = dict((pk, qk) for pk, qk, _kind in rep.pairs)
     for sc in pm_.scopes:
         if sc.kind != 'class':
             continue
@@ -1036,6 +1039,12 @@ def compare(psrc, qsrc, opts, ptree=None, qtree=None):
                     up = up.parent
                 if p_has:
                     if fwd.get((0, n), (0, n))[1] != n:
+                        # consistent all the same when the class-body occurrence itself was renamed along with the global and the output's class no longer
+                        # binds the name (its only binders went with a removed statement)
+                        qkey = pair_of.get(o.key)
+                        qo = qm_.occ.get(qkey) if qkey is not None else None
+                        if qo is not None and qo.raw == fwd[(0, n)][1] and qo.scope.kind == 'class' and qo.raw not in qo.scope.bound:
+                            continue
                         res.problems.append({'kind': 'class-body-global-fallback-renamed', 'enclosing_function_binds': enclosing_function_binds, 'detail': 'class %s reads %s which may fall back to the module global; that global was renamed to %s' % (sc.name, n, fwd[(0, n)][1])})
                 else:
                     if n in qm_.module.bound:
